@@ -93,13 +93,22 @@ PROPS["C07"] = dict(
     explanation=("Every history runs on the real xflate.Reader next to a bytes.Reader over the original data (per-call "
                  "oracle: Seek results and refusals, data at the current position, EOF exactly at the end, progress, "
                  "zero-length reads return within 2 s) and on the extracted Reader model (per-op results at ReadFull "
-                 "granularity). Defects D1, D2 were rediscovered by this check before being repaired."),
+                 "granularity). 40+ further Writer histories are only checked for the theorem's hypothesis (honest_stream). "
+                 "Defects D1, D2 were rediscovered by this check before being repaired."),
     assumptions=_XF_TRUST,
-    level_text=("Proved for the Reader model for all states: zero-length Read is prompt and changes nothing; refused seeks "
-                "(bad whence, negative) leave the reader unchanged; errors are sticky; the pre-repair Seek is refuted by a "
-                "machine-checked witness and the repaired one passes it. The refinement theorem to bytes.Reader over all "
-                "histories is in progress; until then the all-history claim rests on the exhaustive/random correspondence "
-                "(0 disagreements) and the per-call oracle."),
+    level_text=("THE PROPERTY over all histories is a theorem about the Reader model (Props/C07.v "
+                "xr_refines_readseeker_all_histories, XFlate/Refine.v): for every byte string the model opens whose record "
+                "table is honest for a content (sorted; every delimited chunk decodes through the Reader's own chunk decoder "
+                "to its slice with matching sizes and sync marker - decidable, honestb), EVERY sequence of Seek/Read/Close "
+                "calls yields the observations of the ReadSeeker specification sp_run over that content. Proved by a "
+                "simulation invariant (cursor: current record, decompressor position, pending discard, logical position) "
+                "with the binary search of index.Search proved correct on every sorted table (XFlate/Search.v) and a fuel "
+                "bound for the Read loop. Non-vacuous on the witness stream. The hypothesis is evaluated (extracted "
+                "honest_stream) on every stream the real Writer produced in this run; the specification itself is run "
+                "against the implementation on the random histories (xspec). Also proved for all states: zero-length Read "
+                "prompt, refused seeks change nothing, sticky errors; D1 refuted on the pre-repair Seek by a machine-checked "
+                "witness. Not proved: that every Writer output is honest (C05's round trip; sampled here), and the model = "
+                "code tie (correspondence, 0 disagreements)."),
     level_note="Trusted: as C05.",
     trusted_extra=_XF_TRUST,
 )
